@@ -150,7 +150,7 @@ impl From<crate::ucd_parse::Error> for Error {
 ''')], header='use super::*;\n')
     bidi = Module('bidi_class', 'precis-tools/src/generators/bidi_class.rs', [
         Verbatim(r'pub\s+struct\s+BidiClassGen\b'),
-        Fn('add_range', ensures=[('C15.bidi_add_range', 'exists|p: (Codepoints, String)| final(vec)@ == old(vec)@.push(p) && p.1@ == bidi@ && lo(p.0) == range.start.v() && hi(p.0) == range.end.v()')]),
+        Fn('add_range', head='proof { string_facts(); }', tail='proof { assert(vec@ =~= old(vec)@.push(vec@.last())); }', ensures=[('C15.bidi_add_range', 'exists|p: (Codepoints, String)| final(vec)@ == old(vec)@.push(p) && p.1@ == bidi@ && lo(p.0) == range.start.v() && hi(p.0) == range.end.v()')]),
         Impl(r'impl\s+BidiClassGen\s*(?=\{\s*fn\s+generate_bidi_class_table)', header='impl BidiClassGen', fns=[
             Fn('compress_into_ranges', no_w=True,
                requires=[('REQ.rows_ascending', 'well_formed(keys(old(self).vec@))')],
@@ -158,17 +158,109 @@ impl From<crate::ucd_parse::Error> for Error {
                    ('C15.bidi_searchable', 'well_formed(keys(final(self).vec@))'),
                    ('C15.bidi_denotes', 'forall|x: int, s: Seq<char>| assoc(final(self).vec@, x, s) <==> assoc(old(self).vec@, x, s)'),
                ],
-               head='let ghost rows = self.vec@;',
+               head='let ghost rows = self.vec@;\nlet ghost mut it_done: int = 0;',
+               inserts=[(r'match cp \{', 1, 'before', '''let ghost out_m = out@;
+let ghost range_m = range;
+let ghost val_m = val;
+proof {
+    let c = rows[k].0;
+    let cls = rows[k].1@;
+    if out@.len() == out0.len() + 1 {
+        let p = out@.last();
+        assert(out@ =~= out0.push(p));
+        lemma_keys_push(out0, p);
+        assert forall|x: int, s: Seq<char>| assoc(out@, x, s) <==> (assoc(out0, x, s) || (covers(p.0, x) && p.1@ == s)) by { lemma_assoc_push(out0, p, x, s); }
+        lemma_all_below_mono(out0, lo(p.0), lo(c));
+        lemma_all_below_push(out0, p, lo(c));
+    } else {
+        assert(out@ =~= out0);
+        if k > 0 { lemma_all_below_mono(out0, hi(rows[k - 1].0) + 1, lo(c)); }
+    }
+    assert(val is Some && val->Some_0@ == cls);
+    assert(well_formed(keys(out@)));
+    assert(all_below(out@, lo(c)));
+    assert(range matches Some(r) ==> k > 0 && r.start.v() <= r.end.v() && r.end.v() as int == hi(rows[k - 1].0) && all_below(out@, r.start.v() as int));
+    assert forall|x: int, s: Seq<char>| #[trigger] have(out@, range, val, x, s) <==> seen(rows, k, x, s) by {
+        assert(have(out0, range0, val0, x, s) <==> seen(rows, k, x, s));
+    }
+}'''),
+                        (r'self\.vec = out;', 1, 'before', '''proof {
+    assert(it_done == rows.len());
+    if out@.len() == out_l.len() + 1 {
+        let p = out@.last();
+        assert(out@ =~= out_l.push(p));
+        lemma_keys_push(out_l, p);
+        assert forall|x: int, s: Seq<char>| assoc(out@, x, s) <==> (assoc(out_l, x, s) || (covers(p.0, x) && p.1@ == s)) by { lemma_assoc_push(out_l, p, x, s); }
+    } else {
+        assert(out@ =~= out_l);
+    }
+    assert forall|x: int, s: Seq<char>| assoc(out@, x, s) <==> assoc(rows, x, s) by {
+        assert(have(out_l, range_l, val_l, x, s) <==> seen(rows, rows.len() as int, x, s));
+        assert(seen(rows, rows.len() as int, x, s) <==> assoc(rows, x, s));
+    }
+}''')],
                loops={1: Loop(ghost='it', invariants=[
                    ('C15.bidi_seq', 'it.seq().len() == rows.len() && (forall|i: int| 0 <= i < rows.len() ==> *#[trigger] it.seq()[i] == rows[i]) && rows == self.vec@ && well_formed(keys(rows))'),
                    ('C15.bidi_out_wf', 'well_formed(keys(out@))'),
+                   ('C15.bidi_done', 'it_done == it.index@'),
                    ('C15.bidi_start', 'it.index@ == 0 ==> (val is None && range is None && out@.len() == 0)'),
                    ('C15.bidi_val', 'it.index@ > 0 ==> (val is Some && val->Some_0@ == rows[it.index@ - 1].1@)'),
                    ('C15.bidi_below', 'it.index@ > 0 ==> all_below(out@, hi(rows[it.index@ - 1].0) + 1)'),
                    ('C15.bidi_pending', 'range matches Some(r) ==> it.index@ > 0 && r.start.v() <= r.end.v() && r.end.v() as int == hi(rows[it.index@ - 1].0) && all_below(out@, r.start.v() as int)'),
-                   ('C15.bidi_denotes_inv', 'forall|x: int, s: Seq<char>| (assoc(out@, x, s) || (range matches Some(r) && r.start.v() <= x <= r.end.v() && val is Some && val->Some_0@ == s)) <==> (exists|j: int| 0 <= j < it.index@ && covers(#[trigger] rows[j].0, x) && rows[j].1@ == s)'),
-               ], head='let ghost k = it.index@;\nlet ghost out0 = out@;\nlet ghost range0 = range;\nlet ghost val0 = val;',
+                   ('C15.bidi_denotes_inv', 'forall|x: int, s: Seq<char>| #[trigger] have(out@, range, val, x, s) <==> seen(rows, it_done, x, s)'),
+               ], head='''let ghost k = it.index@;
+let ghost out0 = out@;
+let ghost range0 = range;
+let ghost val0 = val;
+proof {
+    string_facts();
+    assert(*cp == rows[k].0 && *bidi == rows[k].1);
+    assert(keys(rows)[k] == rows[k].0);
+    assert(lo(rows[k].0) <= hi(rows[k].0));
+    if k > 0 { assert(keys(rows)[k - 1] == rows[k - 1].0); assert(hi(rows[k - 1].0) < lo(rows[k].0)); }
+}''',
+               post='let ghost out_l = out@;\nlet ghost range_l = range;\nlet ghost val_l = val;',
+               tail='''proof {
+    it_done = k + 1;
+    // from the state after the class-change block (out_m, range_m, class == bidi) to the invariant at k + 1
+    let c = rows[k].0;
+    let cls = rows[k].1@;
+    if out@.len() == out_m.len() + 1 {
+        let p = out@.last();
+        assert(out@ =~= out_m.push(p));
+        lemma_keys_push(out_m, p);
+        assert forall|x: int, s: Seq<char>| assoc(out@, x, s) <==> (assoc(out_m, x, s) || (covers(p.0, x) && p.1@ == s)) by { lemma_assoc_push(out_m, p, x, s); }
+        lemma_all_below_mono(out_m, lo(p.0), lo(c));
+        lemma_all_below_push(out_m, p, lo(c));
+    } else if out@.len() == out_m.len() + 2 {
+        let p1 = out@[out@.len() - 2];
+        let p2 = out@.last();
+        let mid = out_m.push(p1);
+        assert(out@ =~= mid.push(p2));
+        lemma_keys_push(out_m, p1);
+        lemma_all_below_mono(out_m, lo(p1.0), lo(c));
+        lemma_all_below_push(out_m, p1, lo(c));
+        lemma_keys_push(mid, p2);
+        assert forall|x: int, s: Seq<char>| assoc(out@, x, s) <==> (assoc(out_m, x, s) || (covers(p1.0, x) && p1.1@ == s) || (covers(p2.0, x) && p2.1@ == s)) by {
+            lemma_assoc_push(out_m, p1, x, s); lemma_assoc_push(mid, p2, x, s);
+        }
+        lemma_all_below_mono(mid, lo(c), hi(c) + 1);
+        lemma_all_below_push(mid, p2, hi(c) + 1);
+    } else {
+        assert(out@ =~= out_m);
+    }
+    if out@.len() <= out_m.len() + 1 { lemma_all_below_mono(out@, lo(c), hi(c) + 1); }
+    assert forall|x: int, s: Seq<char>| #[trigger] have(out@, range, val, x, s) <==> seen(rows, k + 1, x, s) by {
+        assert(have(out_m, range_m, val_m, x, s) <==> seen(rows, k, x, s));
+        if seen(rows, k, x, s) { let j = choose|j: int| 0 <= j < k && covers(#[trigger] rows[j].0, x) && rows[j].1@ == s; assert(0 <= j < k + 1 && covers(rows[j].0, x) && rows[j].1@ == s); }
+        if covers(c, x) && cls == s { assert(0 <= k < k + 1 && covers(rows[k].0, x) && rows[k].1@ == s); }
+        if seen(rows, k + 1, x, s) {
+            let j = choose|j: int| 0 <= j < k + 1 && covers(#[trigger] rows[j].0, x) && rows[j].1@ == s;
+            if j < k { assert(seen(rows, k, x, s)); } else { assert(covers(c, x) && cls == s); }
+        }
+    }
+}''',
                )}),
         ]),
-    ], header='use super::*;\nuse crate::spec::*;\nuse crate::ucd_parse::{CodepointRange, Codepoints};\n')
+    ], header='use super::*;\nuse crate::spec::*;\nuse crate::ucd_parse::{CodepointRange, Codepoints, string_facts};\nbroadcast use {crate::ucd_parse::axiom_string_eq, crate::ucd_parse::axiom_string_from_str};\n')
     return [model, spec, err, common, parsers, gen, bidi]
